@@ -86,7 +86,8 @@ func escapeRules(p *core.Program, r *core.Report) {
 				best = cs
 				decDefaultErrors = defErr
 				// digit counts: nested switch assigning n = k under case letters
-				ast.Inspect(sw, func(m ast.Node) bool {
+				// (in the decoder itself or in an unexported helper it calls: `n = k` or `return k`)
+				eng.InspectInlined(p, info, p.Pkg("parser/lexer").Types, sw, 2, func(fn *types.Func, _ *ast.FuncDecl) bool { return !fn.Exported() }, func(m ast.Node, _ *eng.InlineCtx, _ int) bool {
 					in, ok := m.(*ast.SwitchStmt)
 					if !ok || in == sw {
 						return true
@@ -96,12 +97,24 @@ func escapeRules(p *core.Program, r *core.Report) {
 						if len(cc.Body) != 1 {
 							continue
 						}
-						if as, ok := cc.Body[0].(*ast.AssignStmt); ok && len(as.Rhs) == 1 {
-							if k, ok := runeConst(info, as.Rhs[0]); ok {
-								for _, ex := range cc.List {
-									if ch, ok := runeConst(info, ex); ok {
-										decDigits[rune(ch)] = k
-									}
+						var val ast.Expr
+						switch st := cc.Body[0].(type) {
+						case *ast.AssignStmt:
+							if len(st.Rhs) == 1 {
+								val = st.Rhs[0]
+							}
+						case *ast.ReturnStmt:
+							if len(st.Results) == 1 {
+								val = st.Results[0]
+							}
+						}
+						if val == nil {
+							continue
+						}
+						if k, ok := runeConst(info, val); ok {
+							for _, ex := range cc.List {
+								if ch, ok := runeConst(info, ex); ok {
+									decDigits[rune(ch)] = k
 								}
 							}
 						}
